@@ -306,7 +306,7 @@ un = [("insert","BlockRanges::insert_relaxed,"+FE,"op args a,e free u64"),
 for f,funcs,extra in un:
     maxn = 3
     for n in range(0, maxn+1):
-        tier = "quick" if n <= 1 else "thorough"
+        tier = "quick" if n <= 1 or (f in ("headn", "tailn") and n == 3) else "thorough"
         shape = f"{n} stored ranges with free u64 bounds (invariant assumed); {extra}; probe height free u64"
         H(f"c17_{f}_n{n}", f"{f}::<{n}>()", tier, shape, funcs)
 bi = [("union","<BlockRanges as BitOr>::bitor,AddAssign::add_assign,BlockRanges::insert_relaxed"),
